@@ -199,6 +199,29 @@ pub fn run(e: &'static Engine) {
         }));
     }
     e.par(jobs);
+    // Just beyond capacity with the version pinned (every cell, capacity + 1 and + 2 characters): these builds are refused
+    // on a correct tree (nothing to decode) - IF a symbol is returned it must carry the whole input like any other.
+    let mut jobs: Vec<Job> = Vec::new();
+    for v in 1..=40usize {
+        jobs.push(Box::new(move |jc: &mut JobCtx| {
+            for &level in LEVELS.iter() {
+                for mi in 0..3 {
+                    let mode = Mode::from_index(mi);
+                    let cell = Cell { version: v, level, mode };
+                    for extra in 1..=2usize {
+                        let strat = crate::gens::payload(mode, cell.cap() + extra, true).prop_map(move |(input, _)| {
+                            BuildCase::new(input, crate::fq::Opts { mode: if (v + extra) % 2 == 0 { Some(mode) } else { None }, level: Some(level), version: Some(v), mask: Some(((v + mi) % 8) as u8) })
+                        });
+                        jc.run_prop((v * 100 + mi * 10 + extra) as u64 + (7 << 30), &strat, 1, |c| c.to_json(), |c, o| {
+                            o.label("part:just_beyond_capacity_pinned_version");
+                            check(c, "beyond_capacity", o)
+                        });
+                    }
+                }
+            }
+        }));
+    }
+    e.par(jobs);
     let _ = Level::L;
     e.put("cells_total", 480.into());
     super::common::extreme_parts(e, check);
